@@ -52,9 +52,9 @@ type c20ChartC struct {
 }
 
 type c20PTree struct {
-	Name string        `json:"name"`
-	Deps []c20PDep     `json:"deps,omitempty"`
-	Subs []*c20PTree   `json:"subs,omitempty"`
+	Name string      `json:"name"`
+	Deps []c20PDep   `json:"deps,omitempty"`
+	Subs []*c20PTree `json:"subs,omitempty"`
 }
 
 type c20PDep struct {
